@@ -16,10 +16,13 @@ describe = X.describe
 
 RULE = ("one PRNG (VERIF_SEED) draws a DAG of 3-12 nodes (quick; up to 30 thorough): 1-3 leading signals of every flavour "
         "(ArcRwSignal, signal() pair, RwSignal, ArcTrigger-backed cell, arc_signal() pair: both notification paths), then "
-        "ArcMemo / Memo (PartialEq or always-changed compare), closures / Signal::derive / ArcSignal::derive, bodies from the "
+        "ArcMemo / Memo (PartialEq, always-changed, or a comparator coarser than equality: new_with_compare(parity differs)), "
+        "closures / Signal::derive / ArcSignal::derive, type-erased wrappers around earlier nodes (Signal::from, ArcSignal::from, "
+        "Signal::stored, MappedSignal / ArcMappedSignal, MaybeSignal::from over every signal flavour, memo and derived signal), bodies from the "
         "expression grammar (chains, diamonds, fan-in, conditional reads switched by signals, get_untracked, untrack(..), "
         "repeated reads), and a history of 10-60 set (values 0..3, so equal-value writes are frequent) / notify / read "
-        "operations; a second family adds effects (no writes) with partial executor progress between the operations. "
+        "operations, in a fifth of the cases with one or two arena signals / memos disposed in the middle (later reads of them by "
+        "bodies give 0 and track nothing); a second family adds effects (no writes) with partial executor progress between the operations. "
         "A case is non-trivial when some memo body ran at least twice; distinct = distinct case hash.")
 TRUSTED = [
     "Coq 8.16.1 kernel (coqc); no axioms: every theorem of Properties_C01.v is 'Closed under the global context'",
@@ -27,13 +30,18 @@ TRUSTED = [
     "harness/rx (Rust): builds the real reactive_graph objects, user closures interpret the case's expression trees, "
     "logs every body invocation and every read (value, tracked?) to a thread-local trace",
     "modelled, not verified: RwLock/Arc/Weak semantics (single thread, no poisoning), the OBSERVER thread-local, "
-    "arena storage of Memo/RwSignal/ReadSignal/WriteSignal (handles stay alive for the whole case), i64 arithmetic without overflow",
+    "arena storage of Memo/RwSignal/ReadSignal/WriteSignal (a disposed item drops its value and subscriber set; the harness "
+    "reads a disposed handle with try_get and takes None as 0), i64 arithmetic without overflow",
     "static graphs only: memos created inside other computations are not modelled",
 ]
 ASSUMPTIONS = [
     "single thread; user closures are deterministic and pure (memo bodies do not write signals)",
     "the dependency graph is a DAG given by creation order (node i reads only nodes j < i)",
-    "memo compare functions are sound: 'unchanged' implies equal values (PartialEq or always-changed)",
+    "a memo whose comparator is coarser than equality always holds what its function gives; its subscribers are, by design, "
+    "not re-run for a change the comparator ignores: 'current value' of such a source means 'current up to its comparator'",
+    "disposing a source is not a change: what a computation logged about it stands until the computation runs again for "
+    "another reason; disposed nodes are not written, notified or read from the top level afterwards, are not written by effects "
+    "and are not wrapped (a wrapper keeps the value alive)",
 ]
 LEVEL_TEXT = ("Coq proofs about an executable Gallina transcription of MemoInner (mark_dirty / mark_check / update_if_necessary), "
               "the signal notification path, Track::track, untrack and derived signals, for all well-formed graphs and all "
